@@ -104,13 +104,21 @@ class FakeWriter:
         self.nwrites += 1
         fail_at = self.script.get("write_error_at")
         if fail_at is not None and self.nwrites == fail_at:
-            self.death = ConnectionResetError("write failed")
+            mk = self.script.get("write_error_exc") or (lambda: ConnectionResetError("write failed"))
+            self.death = mk()
+            if self.script.get("error_in") == "drain":
+                self.log.append((self.conn_id, bytes(b)))
+                self.drain_error = self.death          # the write is accepted, the following drain() reports the failure
+                return
             raise self.death
         if self.closed:
             raise ConnectionResetError("write on closed transport")
         self.log.append((self.conn_id, bytes(b)))
 
     async def drain(self):
+        if getattr(self, "drain_error", None) is not None:
+            e, self.drain_error = self.drain_error, None
+            raise e
         f = self.script.get("drain")
         if f is not None and f(self):
             await asyncio.sleep(0)
@@ -178,6 +186,8 @@ def run(main_coro_fn, max_steps=200000):
         try:
             res = loop.run_until_complete(main_coro_fn(loop))
         except (Livelock, Deadlock) as e:
+            res = e
+        except Exception as e:           # the scenario itself ended with an exception of the code under test
             res = e
         # let cancelled tasks finish
         pending = [t for t in asyncio.all_tasks(loop) if not t.done()]
